@@ -17,7 +17,7 @@ CONSTANTS MaxFlat, Pairs, Seed
 
 SS == INSTANCE SharedState WITH DefaultCopied <- TRUE, RouteCopied <- TRUE, SettingsPerCall <- TRUE, VisitReadsSettings <- TRUE,
          RegistryInitOnly <- TRUE, TypeInfosLocked <- TRUE, PatternCacheAtomic <- TRUE, UriCacheLocked <- TRUE,
-         UniqueCheckerSet <- TRUE, WithWriters <- FALSE, MaxOps <- 1, prog <- <<>>, held <- <<>>
+         UniqueCheckerReadOnly <- TRUE, RouterStateless <- TRUE, WithWriters <- FALSE, MaxOps <- 1, prog <- <<>>, held <- <<>>
 
 (* ordered, so that multisets are enumerated once and Seed can rotate through them *)
 FlatSeq == <<"find_mux", "find_legacy", "find_mux_servers", "find_legacy_servers", "vreq_params", "vreq_params_delete", "vreq_body_pattern",
@@ -82,7 +82,19 @@ InitCases ==
    \cup {Case(<<Op(ef[1], ef[2]), Op("vresp", "-")>>, "details_off") :
             ef \in {x \in {"visit", "param_query", "req_body", "resp_header"} \X {"enum", "anyof", "object"} : SS!Usable(x[1], x[2])}}
 
-Cases == FlatCases \cup ProductCases \cup MediaCases \cup CrossCases \cup InitCases
+(* routers over overlapping routes: every <<entry, shape>> alone (its own callers mix the three requests), every pair of *)
+(* operations on the same router with different shapes, and each shape next to a flat operation                          *)
+RouteEntrySeq == <<"route_mux", "vreq_route_mux", "middleware_route", "route_legacy", "vreq_route_legacy">>
+RouteShapeSeq == <<"overlap_sibling", "overlap_deep", "overlap_servers">>
+ASSUME {RouteEntrySeq[i] : i \in DOMAIN RouteEntrySeq} = SS!RouteEntries /\ {RouteShapeSeq[i] : i \in DOMAIN RouteShapeSeq} = SS!RouteShapes
+SameRouter(i, j) == (i <= 3) = (j <= 3)
+RouteCases ==
+   {Case(<<Op(RouteEntrySeq[i], RouteShapeSeq[s])>>, "default") : i \in 1..5, s \in 1..3}
+   \cup {Case(<<Op(RouteEntrySeq[q[1]], RouteShapeSeq[q[2]]), Op(RouteEntrySeq[q[3]], RouteShapeSeq[q[4]])>>, "default") :
+            q \in {x \in (1..5) \X (1..3) \X (1..5) \X (1..3) : x[1] <= x[3] /\ x[2] < x[4] /\ SameRouter(x[1], x[3])}}
+   \cup {Case(<<Flat(((s * 7 + i + Seed) % NF) + 1), Op(RouteEntrySeq[i], RouteShapeSeq[s])>>, "default") : i \in 1..5, s \in 1..3}
+
+Cases == FlatCases \cup ProductCases \cup MediaCases \cup CrossCases \cup InitCases \cup RouteCases
 
 VARIABLE c
 Init == c \in Cases
